@@ -728,3 +728,50 @@ func isUnitCounter(phi *ssa.Phi) bool {
 	}
 	return zero && inc && ok
 }
+
+// resultLeaves follows v through calls of module functions to the values those functions return: for a call of a
+// function with a body every value returned at the result position (0 for a single result, the index of an Extract
+// otherwise), recursively; any other value (phis included) is its own leaf. Depth bounded.
+func (w *World) resultLeaves(v ssa.Value) []ssa.Value {
+	var out []ssa.Value
+	seen := map[ssa.Value]bool{}
+	var rec func(v ssa.Value, depth int)
+	rec = func(v ssa.Value, depth int) {
+		if seen[v] || depth > 4 {
+			out = append(out, v)
+			return
+		}
+		seen[v] = true
+		idx := 0
+		var call *ssa.Call
+		switch x := v.(type) {
+		case *ssa.Call:
+			call = x
+		case *ssa.Extract:
+			if c, ok := x.Tuple.(*ssa.Call); ok {
+				call, idx = c, x.Index
+			}
+		}
+		if call == nil {
+			out = append(out, v)
+			return
+		}
+		callee := call.Call.StaticCallee()
+		if callee == nil || len(callee.Blocks) == 0 || !w.InModule(callee) {
+			out = append(out, v)
+			return
+		}
+		n := 0
+		allInstrs(callee, func(ins ssa.Instruction) {
+			if ret, ok := ins.(*ssa.Return); ok && idx < len(ret.Results) {
+				n++
+				rec(ret.Results[idx], depth+1)
+			}
+		})
+		if n == 0 {
+			out = append(out, v)
+		}
+	}
+	rec(v, 0)
+	return out
+}
